@@ -79,6 +79,8 @@ LIB_FLAVOURS = {
     # name -> (cmake options, extra compile flags)
     "fiber": (["-DYACLIB_CXX_STANDARD=20", "-DYACLIB_FLAGS=CORO", "-DYACLIB_FAULT=FIBER"], "-O1 -g"),
     "fiber_asan": (["-DYACLIB_CXX_STANDARD=20", "-DYACLIB_FLAGS=CORO;ASAN;UBSAN", "-DYACLIB_FAULT=FIBER"], "-O1 -g"),
+    # the coroutine layer without symmetric transfer, under the controlled scheduler
+    "fiber_nost": (["-DYACLIB_CXX_STANDARD=20", "-DYACLIB_FLAGS=CORO;DISABLE_SYMMETRIC_TRANSFER", "-DYACLIB_FAULT=FIBER"], "-O1 -g"),
     "thread": (["-DYACLIB_CXX_STANDARD=20", "-DYACLIB_FLAGS=CORO", "-DYACLIB_FAULT=THREAD"], "-O1 -g"),
     "plain": (["-DYACLIB_CXX_STANDARD=20", "-DYACLIB_FLAGS=CORO"], "-O1 -g"),
     # the two other coroutine configurations of cmake/yaclib_flags.cmake
